@@ -46,16 +46,52 @@ struct ScriptedWrite {
     got: Arc<Mutex<Vec<u8>>>,
     hard_errors: usize,
     zeros: usize,
+    /// write calls made after a hard error had been returned (the entry must have been given up)
+    calls_after_hard_error: usize,
+    /// the writer serves ONE entry: after a hard error it keeps failing and counts further calls
+    single_entry: bool,
+}
+
+/// hard errors come in every kind, also kinds that look transient on other kinds of output
+const HARD_KINDS: [io::ErrorKind; 8] = [
+    io::ErrorKind::Other, io::ErrorKind::WouldBlock, io::ErrorKind::BrokenPipe, io::ErrorKind::TimedOut,
+    io::ErrorKind::ConnectionReset, io::ErrorKind::StorageFull, io::ErrorKind::PermissionDenied, io::ErrorKind::UnexpectedEof,
+];
+static HARD_COUNTER: std::sync::atomic::AtomicUsize = std::sync::atomic::AtomicUsize::new(0);
+fn hard_error() -> io::Error {
+    let k = HARD_COUNTER.fetch_add(1, std::sync::atomic::Ordering::Relaxed);
+    io::Error::new(HARD_KINDS[k % HARD_KINDS.len()], "scripted hard error")
 }
 
 impl ScriptedWrite {
     fn new(script: Script) -> Self {
-        ScriptedWrite { script, call: 0, got: Default::default(), hard_errors: 0, zeros: 0 }
+        ScriptedWrite { script, call: 0, got: Default::default(), hard_errors: 0, zeros: 0, calls_after_hard_error: 0, single_entry: false }
     }
     fn step(&mut self) -> Step {
+        if self.single_entry && self.hard_errors > 0 {
+            self.calls_after_hard_error += 1;
+            // keep failing: an implementation that retries must not be rescued by the script
+            if self.calls_after_hard_error < 1000 {
+                return Step::Hard;
+            }
+        }
         let s = self.script.steps.get(self.call).copied().unwrap_or(Step::Accept(self.script.then_chunk));
         self.call += 1;
         s
+    }
+}
+
+/// the writer handed out by a MakeWriter: a handle on shared scripted state
+struct SharedW(Arc<Mutex<ScriptedWrite>>);
+impl io::Write for SharedW {
+    fn write(&mut self, buf: &[u8]) -> io::Result<usize> {
+        self.0.lock().unwrap().write(buf)
+    }
+    fn write_vectored(&mut self, bufs: &[IoSlice<'_>]) -> io::Result<usize> {
+        self.0.lock().unwrap().write_vectored(bufs)
+    }
+    fn flush(&mut self) -> io::Result<()> {
+        Ok(())
     }
 }
 
@@ -74,7 +110,7 @@ impl io::Write for ScriptedWrite {
             }
             Step::Hard => {
                 self.hard_errors += 1;
-                Err(io::Error::other("scripted hard error"))
+                Err(hard_error())
             }
         }
     }
@@ -108,7 +144,7 @@ impl io::Write for ScriptedWrite {
             }
             Step::Hard => {
                 self.hard_errors += 1;
-                Err(io::Error::other("scripted hard error"))
+                Err(hard_error())
             }
         }
     }
@@ -179,7 +215,7 @@ fn shape_entry(rng: &mut Rng, shape: u8) -> (Cfg, ProgramEntry) {
 }
 
 /// one (entry, script) case on a given long-lived formatter; followed by a "next entry" check
-fn bytes_case(emf: &mut metrique_writer_format_emf::Emf, cfg: &Cfg, e: &ProgramEntry, script: &Script, rep: &Report) -> bool {
+fn bytes_case(emf: &mut metrique_writer_format_emf::Emf, cfg: &Cfg, e: &ProgramEntry, script: &Script, via_makewriter: bool, rep: &Report) -> bool {
     let (r0, reference) = format_to_vec(&mut cfg.build(), e);
     if r0 != FmtResult::Ok {
         rep.inconclusive("reference formatting failed (harness error)");
@@ -187,11 +223,25 @@ fn bytes_case(emf: &mut metrique_writer_format_emf::Emf, cfg: &Cfg, e: &ProgramE
     }
     let lines: Vec<Vec<u8>> = reference.split_inclusive(|b| *b == b'\n').map(|l| l.to_vec()).collect();
     let mut w = ScriptedWrite::new(script.clone());
+    w.single_entry = true;
     let got_handle = w.got.clone();
-    let r = catch_unwind(AssertUnwindSafe(|| emf.format(e, &mut w)));
+    let r = if via_makewriter {
+        // the stream built by output_to_makewriter(): one writer per entry from the MakeWriter
+        use metrique_writer::EntryIoStream;
+        use metrique_writer::format::FormatExt;
+        let shared = Arc::new(Mutex::new(w));
+        let s2 = shared.clone();
+        let mut stream = emf.clone().output_to_makewriter(move || SharedW(s2.clone()));
+        let r = catch_unwind(AssertUnwindSafe(|| stream.next(e)));
+        drop(stream);
+        w = Arc::try_unwrap(shared).ok().expect("writer handles dropped").into_inner().unwrap();
+        r
+    } else {
+        catch_unwind(AssertUnwindSafe(|| emf.format(e, &mut w)))
+    };
     let got = got_handle.lock().unwrap().clone();
     let witness = |what: &str, extra: Value| {
-        json!({"what": what, "cfg": cfg.json(), "entry": e.json(), "script": format!("{script:?}"), "extra": extra,
+        json!({"what": what, "through": if via_makewriter { "output_to_makewriter(..).next(entry)" } else { "format(entry, &mut writer)" }, "cfg": cfg.json(), "entry": e.json(), "script": format!("{script:?}"), "extra": extra,
                "reference_len": reference.len(), "received_len": got.len(), "received_tail": short(&got[got.len().saturating_sub(300)..])})
     };
     let r = match r {
@@ -202,6 +252,13 @@ fn bytes_case(emf: &mut metrique_writer_format_emf::Emf, cfg: &Cfg, e: &ProgramE
         }
     };
     let faulted = w.hard_errors > 0 || w.zeros > 0;
+    if w.calls_after_hard_error > 0 {
+        rep.violation(
+            "write-retried-after-hard-error",
+            witness("the writer returned a hard error, yet write was called again for the same entry (a writer that keeps failing would stall the sink)", json!({"calls_after_the_error": w.calls_after_hard_error, "result": format!("{r:?}")})),
+        );
+        return false;
+    }
     match (&r, faulted) {
         (Ok(()), false) => {
             if let Err(m) = matches_permutation(&got, &lines, true) {
@@ -261,7 +318,7 @@ fn bytes_part(args: &Args, rep: &Report, budget: Duration) {
                         while k <= total {
                             rep.eval();
                             let script = Script { steps: vec![Step::Accept(k)], then_chunk: usize::MAX, vectored };
-                            if !bytes_case(&mut emf, &cfg, &e, &script, rep) {
+                            if !bytes_case(&mut emf, &cfg, &e, &script, false, rep) {
                                 return;
                             }
                             k += step;
@@ -289,7 +346,7 @@ fn bytes_part(args: &Args, rep: &Report, budget: Duration) {
                         if rep.want_sample() && rng.below(500) == 0 {
                             rep.sample(|| json!({"shape": shape, "record_len": total, "script": format!("{script:?}")}));
                         }
-                        if !bytes_case(&mut emf, &cfg, &e, &script, rep) {
+                        if !bytes_case(&mut emf, &cfg, &e, &script, rng.below(3) == 0, rep) {
                             return;
                         }
                     }
